@@ -87,6 +87,8 @@ class Ty:
             return "seq[%r]" % (self.elem,)
         if self.kind == "arr":
             return "arr[%r]" % (self.elem,)
+        if self.kind == "set":
+            return "set[%r]" % (self.elem,)
         if self.kind == "tup":
             return "tup%r" % (tuple(self.elems),)
         if self.kind == "map":
@@ -178,6 +180,8 @@ def sort_of(ty):
         return tuple_sort(ty)
     if k == "arr":
         return z3.ArraySort(z3.IntSort(), sort_of(ty.elem))
+    if k == "set":
+        return z3.ArraySort(elem_sort(ty.elem), z3.BoolSort())
     if k == "map":
         return map_sort(ty)
     raise ValueError("no sort for %r" % (ty,))
@@ -204,6 +208,8 @@ def parse_type(s):
         return REF(c)
     if s.startswith("seq[") and s.endswith("]"):
         return SEQ(parse_type(s[4:-1]))
+    if s.startswith("set[") and s.endswith("]"):
+        return Ty("set", elem=parse_type(s[4:-1]))
     if s.startswith("arr[") and s.endswith("]"):
         return Ty("arr", elem=parse_type(s[4:-1]))
     if s.startswith("tup[") and s.endswith("]"):
